@@ -110,15 +110,35 @@ Definition sort_uniq (l : list Z) : list Z := fold_right insert_sorted [] l.
 Definition get_enabled_uplink_data_rates (t : tables) : list Z :=
   sort_uniq (flat_map (fun c => zrange (ch_min c) (ch_max c)) (t_up t)).
 
-(* func (b *band) AddChannel(frequency, minDR, maxDR)  band.go:334-350: refused when the band
-   does not support extra channels; otherwise ONE channel value (custom, enabled unless the
-   frequency is 0) is appended to both the uplink and the downlink channels.  The DR range is
-   not validated by the code. *)
+(* func (b *band) AddChannel(frequency, minDR, maxDR)  band.go (after the fixes 7d23ee7, a79c4b5):
+   refused when the band does not support extra channels, when minDR / maxDR / any index
+   between them is not an uplink data-rate of the band or minDR > maxDR, and when the frequency
+   is not one NewChannelReq can carry (multiple of 100 Hz fitting 24 bits; from 2.4 GHz on half
+   the frequency must fit and it must be a multiple of 200 Hz; 0 passes).  Otherwise ONE channel
+   value (custom, enabled unless the frequency is 0) is appended to both the uplink and the
+   downlink channels.  Frequencies are uint32 (callers supply 0 <= f < 2^32). *)
 Definition set_channels (t : tables) (u d : list channel) : tables :=
   mkTables (t_extra t) (t_cfmin t) (t_cfmax t) (t_drs t) (t_maxpl t) (t_rx1 t) u d (t_txpow t).
 
+Definition dr_is_uplink (t : tables) (dr : Z) : bool :=
+  match zfind dr (t_drs t) with Some d => dr_up d | None => false end.
+
+(* the endpoints are tested first: the loop over the range only runs between two data-rate indices *)
+Definition add_dr_range_ok (t : tables) (mn mx : Z) : bool :=
+  if dr_is_uplink t mn && dr_is_uplink t mx then
+    if mn >? mx then false else forallb (dr_is_uplink t) (zrange mn mx)
+  else false.
+
+Definition add_frequency_ok (f : Z) : bool :=
+  let freq := if f >=? 2400000000 then Z.quot f 2 else f in
+  negb (Z.quot freq 100 >=? 16777216)
+  && (Z.rem f 100 =? 0)
+  && negb ((f >=? 2400000000) && negb (Z.rem f 200 =? 0)).
+
 Definition add_channel (t : tables) (f mn mx : Z) : outcome tables :=
   if negb (t_extra t) then Err
+  else if negb (add_dr_range_ok t mn mx) then Err
+  else if negb (add_frequency_ok f) then Err
   else let c := mkCh f mn mx (negb (f =? 0)) true in
        Ok (set_channels t (t_up t ++ [c]) (t_down t ++ [c])).
 
@@ -202,9 +222,13 @@ Definition get_rx1_dr (c : band_cfg) (dr off : Z) : outcome Z :=
   | _ => generic_rx1_dr (c_tab c) dr off
   end.
 
-(* GetRX1ChannelIndexForUplinkChannelIndex: identity, except
-   us902/au915 `uplinkChannel % 8` and cn470 `uplinkChannel % 48` *)
+(* GetRX1ChannelIndexForUplinkChannelIndex: a negative index is an error (every band, since the
+   fix for C12-5); otherwise identity, except us902/au915 `uplinkChannel % 8` and cn470
+   `uplinkChannel % 48` (an index past the end is NOT rejected: the package's own tests ask for the
+   RX1 channel of channels that do not exist yet) *)
 Definition get_rx1_channel_index (c : band_cfg) (ch : Z) : outcome Z :=
+  if ch <? 0 then Err      (* `if uplinkChannel < 0 { return 0, errors.New(...) }`, fix for C12-5 *)
+  else
   match c_kind c with
   | KUS915 | KAU915 => Ok (Z.rem ch 8)
   | KCN470 => Ok (Z.rem ch 48)
@@ -250,8 +274,15 @@ Definition ping_slot_at (c : band_cfg) (k : Z) : outcome Z :=
   | KRU864 => Ok 868900000
   end.
 
+(* us902/au915/cn470 start with `if beaconTime < 0 { return 0, errors.New(...) }` (fix for C12-4:
+   the truncating % gave a negative channel number and the slice index panicked); the other
+   regions ignore both arguments *)
+Definition hopping_kind (k : band_kind) : bool :=
+  match k with KUS915 | KAU915 | KCN470 => true | _ => false end.
+
 Definition get_ping_slot_frequency (c : band_cfg) (devaddr beacon : Z) : outcome Z :=
-  ping_slot_at c (ping_slot_channel devaddr beacon).
+  if hopping_kind (c_kind c) && (beacon <? 0) then Err
+  else ping_slot_at c (ping_slot_channel devaddr beacon).
 
 (* GetDefaults *)
 Definition std_defaults (f dr : Z) : defaults :=
